@@ -153,6 +153,9 @@ pub enum Step {
     /// a write below `$SYS` by an ordinary client (own client name is allowed, the rest is not)
     SysWrite { slot: usize, key: String, value: Value },
     Join { follower: usize },
+    /// the follower in this slot is stopped abruptly (its runtime is dropped); a later `Join` of the
+    /// slot starts a NEW node (fresh directory)
+    Leave { follower: usize },
     Check,
     /// C12: the leader disappears here (after a quiescent check); the history ends
     Drop,
@@ -171,6 +174,7 @@ impl Step {
             Step::Register { slot, what, value } => format!("s{slot} register {} = {value}", what.topic()),
             Step::SysWrite { slot, key, value } => format!("s{slot} set {key} = {value}"),
             Step::Join { follower } => format!("follower {follower} joins"),
+            Step::Leave { follower } => format!("follower {follower} leaves (stopped abruptly)"),
             Step::Check => "quiescent check".to_owned(),
             Step::Drop => "leader dropped".to_owned(),
         }
@@ -178,7 +182,7 @@ impl Step {
     pub fn requests(&self) -> usize {
         match self {
             Step::Burst(ops) => ops.len(),
-            Step::Join { .. } | Step::Check | Step::Drop => 0,
+            Step::Join { .. } | Step::Leave { .. } | Step::Check | Step::Drop => 0,
             _ => 1,
         }
     }
@@ -201,6 +205,8 @@ pub struct GenParams {
     pub drop_at_end: bool,
     /// include `null` and `{"Cas": ..}` shaped plain values (ambiguous in the store's JSON format)
     pub ambiguous_values: bool,
+    /// followers also leave (are stopped) at quiescent points and new ones join in their slots later
+    pub churn: bool,
 }
 
 fn slot_of(op: &mut Op) -> Option<&mut usize> {
@@ -238,6 +244,33 @@ fn sanitize_op(op: &mut Op, ambiguous: bool) {
             }
         }
         _ => {}
+    }
+}
+
+/// Every 12th request is moved to a user key NEXT TO the protected tree: first segments that merely
+/// begin with `$SYS` (`$SYSTEM`, `$SYS-backup`, `$SYSa`) are ordinary keys which the leader accepts,
+/// exports and must forward like any other.
+fn next_to_sys(rng: &mut Rng, op: &mut Op) {
+    if !rng.chance(1, 12) {
+        return;
+    }
+    let first = *rng.pick(&["$SYSTEM", "$SYS-backup", "$SYSa"]);
+    let swap = |k: &mut String| {
+        let rest = k.split_once('/').map(|(_, r)| r.to_owned());
+        *k = match rest {
+            Some(r) => format!("{first}/{r}"),
+            None => format!("{first}/{k}"),
+        };
+    };
+    match op {
+        Op::Set { key, .. } | Op::CSet { key, .. } | Op::Delete { key, .. } => swap(key),
+        Op::PDelete { pattern, .. } => *pattern = format!("{first}/{}", *rng.pick(&["#", "?", "a", "?/#"])),
+        Op::Import { entries } => {
+            if let Some((k, _)) = entries.first_mut() {
+                swap(k);
+            }
+        }
+        Op::Publish { .. } => {}
     }
 }
 
@@ -328,8 +361,9 @@ pub fn generate(rng: &mut Rng, p: &GenParams, quirks: &Quirks) -> Vec<Step> {
     let mut since_check = 0usize;
     let mut issued = 0usize;
     let mut joined = vec![false; p.joins.len()];
+    let mut joins = p.joins.clone();
     while issued < p.requests {
-        for (f, at) in p.joins.iter().enumerate() {
+        for (f, at) in joins.clone().iter().enumerate() {
             if !joined[f] && *at <= issued {
                 joined[f] = true;
                 steps.push(Step::Join { follower: f });
@@ -390,6 +424,7 @@ pub fn generate(rng: &mut Rng, p: &GenParams, quirks: &Quirks) -> Vec<Step> {
             for _ in 0..n {
                 let mut op = storeops::random_op(rng, &shadow, p.slots, false);
                 sanitize_op(&mut op, p.ambiguous_values);
+                next_to_sys(rng, &mut op);
                 let slot = *rng.pick(&connected);
                 if let Some(c) = slot_of(&mut op) {
                     *c = slot;
@@ -406,6 +441,15 @@ pub fn generate(rng: &mut Rng, p: &GenParams, quirks: &Quirks) -> Vec<Step> {
         if since_check >= p.check_every && issued < p.requests {
             steps.push(Step::Check);
             since_check = 0;
+            if p.churn && rng.chance(1, 2) {
+                let present: Vec<usize> = (0..joined.len()).filter(|f| joined[*f]).collect();
+                if !present.is_empty() {
+                    let f = *rng.pick(&present);
+                    steps.push(Step::Leave { follower: f });
+                    joined[f] = false;
+                    joins[f] = issued + rng.range(1, 30);
+                }
+            }
         }
     }
     for (f, j) in joined.iter().enumerate() {
@@ -615,6 +659,7 @@ pub struct Stats {
     pub disconnects: u64,
     pub disconnects_with_effects: u64,
     pub joins: u64,
+    pub leaves: u64,
     pub joins_with_existing_registrations: u64,
     pub joins_with_existing_data: u64,
     pub markers_awaited: u64,
@@ -639,6 +684,7 @@ impl Stats {
         ev.count("disconnects", self.disconnects);
         ev.count("disconnects_with_grave_goods_or_last_will", self.disconnects_with_effects);
         ev.count("follower_joins", self.joins);
+        ev.count("follower_leaves", self.leaves);
         ev.count("joins_after_registrations", self.joins_with_existing_registrations);
         ev.count("joins_with_existing_data", self.joins_with_existing_data);
         ev.count("markers_awaited", self.markers_awaited);
@@ -708,6 +754,7 @@ pub struct Exec<'a> {
     /// leader's registrations as the harness knows them from accepted sets (cross-check only)
     leader_regs: RegMap,
     marker_n: u64,
+    incarnations: u64,
     nonce: String,
     rng: Rng,
     pub stats: Stats,
@@ -753,6 +800,7 @@ impl<'a> Exec<'a> {
             slots: vec![None; slots],
             leader_regs: RegMap::new(),
             marker_n: 0,
+            incarnations: 0,
             nonce: format!("{:016x}", r.next()),
             rng,
             stats: Stats::default(),
@@ -794,6 +842,7 @@ impl<'a> Exec<'a> {
             self.executed.push(step.describe());
             let v = match step {
                 Step::Join { follower } => self.join(*follower),
+                Step::Leave { follower } => self.leave(*follower),
                 Step::Check => self.check(),
                 Step::Drop => self.check(),
                 other => self.request(other),
@@ -933,8 +982,16 @@ impl<'a> Exec<'a> {
                 if r.is_ok() { self.stats.accepted += 1 } else { self.stats.rejected += 1 }
                 Verdict::Held
             }
-            Step::Join { .. } | Step::Check | Step::Drop => Verdict::Held,
+            Step::Join { .. } | Step::Leave { .. } | Step::Check | Step::Drop => Verdict::Held,
         }
+    }
+
+    fn leave(&mut self, f: usize) -> Verdict {
+        if let Some(Some(fl)) = self.followers.get_mut(f).map(Option::take) {
+            fl.server.kill();
+            self.stats.leaves += 1;
+        }
+        Verdict::Held
     }
 
     fn id_of(&self, op: &Op) -> Option<Uuid> {
@@ -1037,7 +1094,8 @@ impl<'a> Exec<'a> {
             Ok(a) => a,
             Err(e) => return Verdict::Inconclusive(e),
         };
-        let dir = self.dir.join(format!("follower{f}"));
+        self.incarnations += 1;
+        let dir = self.dir.join(format!("follower{f}-{}", self.incarnations));
         let cfg = match free_port().and_then(|p| {
             self.rt
                 .block_on(role_config(follower_args(self.sync_port, &format!("follower{f}")), &dir, p, &self.variant))
@@ -1196,7 +1254,7 @@ impl<'a> Exec<'a> {
                             detail: json!({"follower": i, "error": e, "finished": format!("{fin:?}"), "panics": in_repo, "history": self.executed}),
                         };
                     }
-                    return Verdict::Inconclusive(format!("follower {i} ended: {e} {fin:?}"));
+                    return Verdict::Inconclusive(format!("follower-ended@step{}:f{i}: {e} {fin:?}", self.executed.len()));
                 }
             }
         }
